@@ -205,6 +205,8 @@ def compare(expected_ir, observed_ir, rules, ctx):
         e_ret_eff = None
     else:
         e_ret_eff = e_ret
+    if e_ret_eff is not None and rules.get("omit_typ") and not e_ret_eff["doc"] and (e_ret_eff["default"] == ABSENT or rules.get("omit_default")):
+        e_ret_eff = None  # a return entry that has only a type, emitted without types: the text carries nothing of it
     if e_ret_eff is None and o_ret is None:
         pass
     elif e_ret_eff is None or o_ret is None:
